@@ -5,6 +5,7 @@ from sa.forward import Forward
 from sa.dataflow import Poly, cmp_key, cmp_atoms
 from sa.resolve import walk_function
 
+TECHNIQUE = 'static analysis (ast): value-id comparison of the stored episode steps with a reference implementation under each parameter regime (evaluation under assumptions), polynomial index algebra of walk_forward, effect rule for defaultdict reads, CFG path counts of batches per reset / step'
 EXPLANATION = (
     "Decides the structural clauses of C15: (S1) the steps Transmitter._reset stores are, by value id, those of a reference implementation kept with the rule: the sorted "
     "event-bearing timesteps of both partitions with fold start <= t <= fold end (both inclusive) of the requested fold; nothing but _create_partitions adds a key to the "
